@@ -38,8 +38,8 @@ CLAIMED = {
          "vdrKillSome/vdrKill with os.RemoveAll recorded over a symbolic file cache (directory, file inside it, sibling; arbitrary "
          "keep-alive sets, sizes, live arguments). Asserted: full kill only for a completed, not failed fork whose bound consumers are all "
          "complete/disabled and with no top-level hold; only unheld paths (and nothing containing a held path) are removed; fileArgs/"
-         "filePostNodes stay consistent; non-volatile stages lose only chunk files of splitting stages; anyOverlap/pathIsInside string kernels.",
-         "Trusted: go/ssa, symgo, z3/cvc5, the stubs and fixture listed in the evidence. Outside: on-disk names and symlinks, JSON-derived file "
+         "filePostNodes stay consistent; non-volatile stages lose only chunk files of splitting stages; anyOverlap/pathIsInside string kernels. The keep-alive relation itself is built by the real compiler/runtime from MRO text (two consumers, a sub-pipeline, a pipeline output, a mapped producer with null siblings); getLogicalFileNames runs over a small arbitrary file-system model (symlinked parent, relative/absolute/self links).",
+         "Trusted: go/ssa, symgo, z3/cvc5, the stubs and fixture listed in the evidence. Outside: file-system shapes beyond the model, JSON-derived file "
          "lists, keep-alive relations of programs other than the fixture text (structs, arrays of files, mapped calls), the real goroutine schedule, the stage contract.",
          "DESIGN.md §4 (C04)"),
  "C14": ("Partial (accounting and phases): same harnesses as C04. Asserted: the kill report's size and count grow by exactly the cached sizes/"
@@ -74,8 +74,8 @@ CLAIMED = {
  "C09": ("String values of up to 3 (thorough 4) arbitrary bytes, source literals built from two atoms (raw byte, simple/octal/hex "
          "escape), src commands, @include paths and integers below 10^3 (10^4) are symbolic; the real quoteString, lexer, unquote, "
          "yacc parser and formatter run on them and the solver shows the formatted text lexes/parses back to the same value and is a "
-         "fixed point. Partial: literal, src/include and integer kernels only.",
-         "Trusted: go/ssa, symgo, regex VM model, z3. Outside: floats, comments, call reordering, whole-file idempotence, "
+         "fixed point. Also: a commented call with every subset of local/preflight/volatile in legacy or using syntax (comment kept once, idempotent), the stable topological sort of calls, stage resources from a concrete table of 24 float literals, and a translator self-test on 10 repository files. Partial: kernels, not whole arbitrary files.",
+         "Trusted: go/ssa, symgo, regex VM model, z3. Outside: floats beyond the table, comments elsewhere than on calls, whole-file idempotence, "
          "include-expanded rendering, wider integers. One known finding (non-UTF-8 literal bytes) is reported as KNOWN-FINDING.",
          "DESIGN.md §4 (C09)"),
  "C15": ("Partial, clause by clause: for modifiers, bindings/expressions, calls, stages and pipelines two instances with the same shape "
@@ -117,16 +117,16 @@ CLAIMED = {
  "C19": ("Partial (reference rewriting of rename edits): the real updateRef/updateRefInExp on references with symbolic ids, output paths and "
          "old/new names, and RenameCallable with its edits applied to a hand-built pipeline AST (argument, nested-output, disabled, return and "
          "retain references; alias collision; reverse rename). The solver shows every reference that named the renamed call still names it, "
-         "nothing else changes, and X->Y->X restores the names.",
-         "Trusted: go/ssa, symgo, z3, the fixed AST shape. Outside: re-formatting and recompiling, call-graph equality, removal edits, "
+         "nothing else changes, and X->Y->X restores the names. Refactor with TopCalls (removal of unused outputs to a fixed point) on a three-level pipeline: the edit applied to a fresh parse, formatted and recompiled still compiles and the top-level call resolves to the same stage inputs and outputs.",
+         "Trusted: go/ssa, symgo, z3, the fixed AST shape and fixture text. Outside: removal of unused calls, other programs, "
          "input/output renames across files.",
          "DESIGN.md §4 (C19)"),
  "C18": ("Every byte string up to the stated length (quick 4, thorough 5 bytes; formatArgs 2+1+1 / 2+2+1) is pushed "
          "symbolically through the real appendShellSafeQuote/shellSafeQuote/formatArgs and a POSIX double-quote "
          "reference de-quoter; the solver shows on every path that sh recovers the original bytes, or returns the bytes "
-         "that break it, which are replayed natively (go test -overlay). Bounded, not a proof.",
+         "that break it, which are replayed natively (go test -overlay). The whole job script (RemoteJobManager.jobScript, template substitution around formatArgs) runs with an argument, environment value or path made of 0..1 (2) arbitrary bytes followed by one of nine template-parameter names. Bounded, not a proof.",
          "Trusted: go/ssa lowering, symgo interpreter and term simplifier, z3, the 40-line POSIX de-quoter oracle. "
-         "Outside: job script templates, Replacer placeholder substitution, non-POSIX shells, NUL bytes.",
+         "Outside: templates other than the SGE-like fixture, non-POSIX shells, NUL bytes.",
          "DESIGN.md §4 (C18)"),
 }
 
